@@ -9,7 +9,7 @@ struct BbHarness : Harness {
     std::vector<std::string> props() const override { return {"C18"}; }
     std::vector<std::string> probes(const std::string &) const override {
         return {"rewind_partial", "rewind_fully_consumed", "add_exactly_fills", "add_refused", "consume_refused", "consume_at_most_clipped",
-                "invalid_setup_null_memory", "invalid_setup_zero_size", "invalid_setup_used_gt_size", "invalid_setup_offset_gt_used", "count_beyond_any_block", "buffer_of_64k_octets_or_more", "buffer_from_static_initialiser", "invalid_setup_names_other_memory"};
+                "invalid_setup_null_memory", "invalid_setup_zero_size", "invalid_setup_used_gt_size", "invalid_setup_offset_gt_used", "count_beyond_any_block", "buffer_of_64k_octets_or_more", "buffer_from_static_initialiser", "invalid_setup_names_other_memory", "added_octets_alias_the_buffer_object"};
     }
     uint64_t runs(const std::string &, const Tier &t) const override { return t.thorough() ? 6000000 : 1500000; }
 
@@ -53,7 +53,7 @@ struct BbHarness : Harness {
             Json o = Json::obj();
             uint64_t pickw = r.below(wp + wc + wh);
             int64_t n = r.chance(1, 6) ? (r.chance(1, 2) ? 0 : size + 1) : r.range(0, size < 8 ? size : (r.chance(1, 2) ? 8 : size));
-            if (pickw < wp) { o["t"] = "P"; o["op"] = "add"; o["n"] = (long long)n; }
+            if (pickw < wp) { o["t"] = "P"; o["op"] = "add"; o["n"] = (long long)n; if (r.chance(1, 10)) { o["self"] = (long long)r.below(3); o["n"] = (long long)r.range(1, 8); } }
             else if (pickw < wp + wc) { o["t"] = "C"; o["op"] = r.chance(1, 2) ? "consume" : "atmost"; o["n"] = (long long)n; }
             if (pickw < wp + wc) { if (r.chance(1, 24)) o["big"] = (long long)r.below(8); }   // a count near SIZE_MAX / 2^32 / wrapping the fill or read mark
             else {
@@ -140,7 +140,14 @@ struct BbHarness : Harness {
                 std::vector<uint8_t> d(big ? 1 : (n ? n : 1));
                 uint64_t s0 = serial;
                 for (size_t i = 0; !big && i < n; ++i) d[i] = nextoctet();
-                int rc = byte_buffer_add(&b, d.data(), n);
+                // the octets to add may be the buffer object's own fields (a record writer stamping "octets so far" into the stream): what counts is
+                // their content when the call is made
+                const void *from = d.data();
+                if (!big && o.has("self") && n >= 1 && n <= sizeof(size_t)) {
+                    const size_t *fld = (o.geti("self") % 3) == 0 ? &b.used : ((o.geti("self") % 3) == 1 ? &b.offset : &b.size);
+                    memcpy(d.data(), fld, n); from = fld; serial = s0; COUNT("probe.added_octets_alias_the_buffer_object");
+                }
+                int rc = byte_buffer_add(&b, from, n);
                 c.ev(EV_API, 1, n, (uint64_t)rc);
                 bool fits = !big && mused + n <= msize;
                 if (fits) {
